@@ -346,7 +346,19 @@ def shard(s, ns, tier, seed):
                     k += 1
                     if k % ns == s:
                         order_case(part, op, ms, H)
-        # operand order below another node
+        # a term, its negation and something that sorts between them (the cancellation rules scan a sorted operand list)
+        b_ = g.ID('b', w)
+        one_ = g.I(w, 1)
+        terms = [g.OP('^', a, b_), g.OP('|', a, b_), g.OP('<<', a, one_), g.OP('>>', a, b_), g.OP('*', a, b_) if w > 1 else g.OP('&', a, b_), g.COND(a, b_, one_)]
+        if w >= 8:
+            terms += [g.SL(g.CO((a, 0, w), (b_, w, 2 * w)), 4, 4 + w) if 2 * w <= 64 else g.OP('a>>', a, b_), g.MEM(g.addr_of(w), w)]
+        for A_ in terms:
+            for B_ in operand_alphabet(w) + terms:
+                if B_ == A_:
+                    continue
+                k += 1
+                if k % ns == s:
+                    order_case(part, '+', (A_, g.OP('-', A_), B_), H)
         A = operand_alphabet(w)
         for op in g.ASSOC:
             for x, y in itertools.combinations(A, 2):
